@@ -140,7 +140,9 @@ def kindOf (k : String) : String :=
   if k == "res_id" then "i" else if k == "hetero" then "b"
   else if mandatory.contains k then "U"
   else match k.toList with
-    | 'i' :: _ => "i" | 'f' :: _ => "f" | 's' :: _ => "U" | 'b' :: _ => "b" | _ => "?"
+    | 'i' :: _ => "i" | 'f' :: _ => "f" | 's' :: _ => "U" | 'b' :: _ => "b"
+    | 'v' :: _ => "i"       -- an integer annotation of shape (n, 2): one opaque token per atom stands for its row
+    | _ => "?"
 
 def pick (xs : List Tok) (sel : List Nat) : List Tok := sel.map (fun i => xs.getD i 0)
 
